@@ -22,7 +22,7 @@ import sys
 import time
 
 ROOT = os.path.dirname(os.path.dirname(os.path.abspath(__file__)))
-SPEC = os.path.join(ROOT, "spec")
+SPEC = os.environ.get("VERIF_SPEC", os.path.join(ROOT, "spec"))
 # (the three overrides exist only for scripts/seedmatrix.py, which measures the checks against seeded
 #  changes in a scratch copy while the registered commands keep using /verif and /repo)
 WORK = os.environ.get("VERIF_WORK", os.path.join(ROOT, "work"))
